@@ -206,6 +206,17 @@ CHECKS = {
         "DESIGN.md section 8, C19",
         "Type pairs the documentation leaves open are skipped, not judged.",
     ),
+    "C20": (
+        "exploration",
+        "runtime monitoring of the renderers' output: all expansion states x both output modes from render_graph meta + parsed Mermaid for every depth, against leaf-level dependencies computed from the program spec; flattening oracle",
+        "For generated nested / gated / ordered graphs every valid expansion state (exhaustive per program in the thorough tier) and "
+        "both output modes are checked for self-consistency and for faithfulness in both directions (every dependency drawn between "
+        "visible representatives; every drawn edge backed by a dependency; input edges reach real consumers); Mermaid sources are "
+        "parsed and checked the same way; to_flat_graph() is compared with the recursive walk incl. the inner edges of every "
+        "instance.",
+        "DESIGN.md section 8, C20",
+        "Six renderer mechanisms that violate faithfulness on the unchanged tree are listed as known findings by mechanism key; layout/styling/labels are not judged.",
+    ),
 }
 
 NOT_YET = {}
